@@ -125,7 +125,7 @@ CHECKS["C12"] = dict(
     design="DESIGN.md §4 C12")
 
 CHECKS["C13"] = dict(
-    technique="static (cfg r1cs): term agreement native<->gadget by canonical polynomial forms (SIB/TERM), constraint<->rejection correspondence (ENFORCE), forwarding rule over the 24 gadget operator impls (FWD), hint = native sqrt (HINT), allocation-mode dataflow (ALLOC), exhaustive 3-state x 2-method typestate enumeration of the lazy cell (LAZY), eager emission of the decode gadget by decompress_from_field (EAGER), honest rows of the hint block's guard table, the gadget zero test and the pinned set of inherited ark-r1cs-std defaults (IDENT/DEFAULT)",
+    technique="static (cfg r1cs): term agreement native<->gadget by canonical polynomial forms (SIB/TERM), constraint<->rejection correspondence (ENFORCE), forwarding rule over the 24 gadget operator impls (FWD), hint = native sqrt (HINT), allocation-mode dataflow incl. the value a constant denotes and the identity of the witnessed point (ALLOC / WITNESS), exhaustive 3-state x 2-method typestate enumeration of the lazy cell (LAZY), eager emission of the decode gadget by decompress_from_field (EAGER), honest rows of the hint block's guard table, the gadget zero test and the pinned set of inherited ark-r1cs-std defaults (IDENT/DEFAULT)",
     category="other",
     text="In-circuit encode / decode / Elligator are the same polynomial functions as the specification (hence as the native code, C01/C03/C07) under Z := 1, T := X*Y; decode enforces exactly the "
          "native rejections; every operator form on both ElementVar types, negate, double, equality, (in)equality enforcement and conditional select denote the native operation on their own "
@@ -134,7 +134,7 @@ CHECKS["C13"] = dict(
     note=OTHER_NOTE + " Trusted: ark-r1cs-std gadgets are complete and compute what they say. NOT decided: satisfiability where Elligator's affine denominators vanish; correctness of the sqrt hint (C09).",
     design="DESIGN.md §4 C13")
 CHECKS["C14"] = dict(
-    technique="static (cfg r1cs): exhaustive truth table of the extracted boolean guards of isqrt's constraint block over (hinted flag, den == 0) with polynomial comparison of each enforced equation (GUARD), witness-path dataflow (WITNESS), call-site rule for the unchecked point allocator (PROV), decode's two ENFORCEs",
+    technique="static (cfg r1cs): exhaustive truth table of the extracted boolean guards of isqrt's constraint block over (hinted flag, den == 0) with polynomial comparison of each enforced equation (GUARD), witness-path dataflow incl. that the coordinates the equality constraint checks are the caller's own point (WITNESS), call-site rule for the unchecked point allocator (PROV), decode's two ENFORCEs",
     category="other",
     text="Decides the hint block and the witness path: for each of the four (flag, den=0) rows exactly the specified equation is enforced and the case check passes, and the impossible row must be "
          "unsatisfiable - the pinned tree violates that row (KNOWN FINDING: (true, +-1) accepted for den = 0, i.e. s = q-1 decodes in-circuit); witnessed coordinates reach only an equality "
@@ -142,7 +142,7 @@ CHECKS["C14"] = dict(
     note=OTHER_NOTE + " NOT decided: absence of other spurious solutions of the whole constraint system (algebra over Fq). The known finding is recorded in known_findings.txt and is not repaired because the repair changes every circuit and the pinned keys.",
     design="DESIGN.md §4 C14, §7")
 CHECKS["C15"] = dict(
-    technique="static (cfg r1cs): two-level taint analysis (availability < value) from witness values to control flow / constraint structure over all 81 gadget functions (TAINT), public-input allocation term = ToConstraintField term (INPUT), C13's honest-witness and AllocVar default-method instances",
+    technique="static (cfg r1cs): two-level taint analysis (availability < value) from witness values to control flow / constraint structure over all 81 gadget functions (TAINT), public-input allocation term = ToConstraintField term (INPUT), C13's honest-witness and AllocVar default-method instances, call-order and argument rule for the library's own circuit-shape reporter (SHAPE)",
     category="other",
     text="Clauses 1-2 of the property: no variable-allocating or constraint-emitting effect (691 examined) is control-dependent on a witness value or receives one outside an allocation closure, so the "
          "constraint system is the same for every input and in setup mode; an element allocated as public input is exactly one Fq instance variable equal to vartime_compress_to_field(value), which "
